@@ -1,5 +1,15 @@
 (* C05 over the language-chain pass models: which passes keep every reference, entry point and
-   discriminator-mapping target resolving (Model/Refs.v). *)
+   discriminator-mapping target resolving (Model/Refs.v).
+   WHAT IS HERE
+   - resolves_iff: resolves = refs_ok /\ entries_ok /\ mappings_ok; the side invariants wfk, pkgs_unique,
+     shape_kept; the generic step lemmas refs_kept, entries_kept, step_keeps, vrel_refs, visit_schema_st_step;
+   - `<pass>_keeps` (references and entry points) for every pass of the Go / Java-core / PHP-core / Python chains,
+     including the ones that register objects (ASTN, AETE, DTT, DOASTE - doaste_keeps_general);
+   - mappings: no_mappings through the passes before DisjunctionInferMapping (nm_aete, nm_pev, ...), dim_keeps_mappings (the
+     mapping built only targets branch names), udta_keeps_mappings, dtt_keeps_mappings, rnev_keeps_mappings;
+   - chain theorems: python_chain_keeps_references / _keeps_resolving, go_chain_keeps_references_general,
+     go_chain_keeps_resolving, java_core_chain_keeps_*, php_core_chain_keeps_*;
+   - witnesses of the three passes that break resolution (chain_passes_that_break_resolution). *)
 From Coq Require Import List String Bool Ascii Lia.
 From Cog Require Import Model.IR Model.Names Model.Passes Model.PassesChain Model.Process Model.NF Model.Refs
      Proofs.TyInd Proofs.PassLemmas Proofs.ChainLemmas Proofs.ChainNFProofs Proofs.ChainPresProofs.
